@@ -15,6 +15,7 @@ import (
 	"go/token"
 	"os"
 	"path/filepath"
+	"regexp"
 	"sort"
 	"strconv"
 	"strings"
@@ -752,6 +753,7 @@ func main() {
 
 	duplexFacts(e, p)
 	plumbingFacts(e, p)
+	timeoutFacts(e, p)
 
 	if len(e.errs) > 0 {
 		for _, m := range e.errs {
@@ -764,6 +766,11 @@ func main() {
 		fmt.Print(text)
 		return
 	}
+	// The line numbers in the comments move with every edit of the source above them, and
+	// Generated.v is at the root of the development's dependency graph: keep them in a sidecar
+	// file so that an edit which changes no extracted value does not rebuild every proof.
+	_ = os.WriteFile(*out+".positions", []byte(text), 0o644)
+	text = regexp.MustCompile(`(\w+\.go):\d+`).ReplaceAllString(text, "$1")
 	old, err := os.ReadFile(*out)
 	if err == nil && string(old) == text {
 		return // unchanged: keep timestamps so make does not rebuild
